@@ -346,6 +346,16 @@ def r5(ctx):
     ctx.check("DetectionMonitor.property_change:tracks-current-value", ok, where(m, f), "the algorithm's parameter always takes the new value (the notification carries current values)")
     tr = [s_ for s_ in walk_shallow(f) if isinstance(s_, ast.Assign) and norm(s_.targets[0]) == "trigger" and isinstance(s_.value, ast.Compare)]
     ok = len(tr) == 1 and ev.eval3(tr[0].value, {f.args.args[1].arg: 1, f.args.args[2].arg: 1}) is False and ev.eval3(tr[0].value, {f.args.args[1].arg: 1, f.args.args[2].arg: 2}) is True
+    if not tr:
+        # the same choice spelled with the library: (self.filter or operator.ne)(old, new)
+        calls_ = [s_ for s_ in walk_shallow(f) if isinstance(s_, ast.Assign) and norm(s_.targets[0]) == "trigger" and isinstance(s_.value, ast.Call)
+                  and [norm(a_) for a_ in s_.value.args] == [f.args.args[1].arg, f.args.args[2].arg]]
+        if len(calls_) == 1:
+            fn_ = calls_[0].value.func
+            if isinstance(fn_, ast.Name):
+                defs_ = [s_ for s_ in walk_shallow(f) if isinstance(s_, ast.Assign) and norm(s_.targets[0]) == fn_.id]
+                fn_ = defs_[0].value if len(defs_) == 1 else fn_
+            ok = isinstance(fn_, ast.BoolOp) and isinstance(fn_.op, ast.Or) and [norm(v_) for v_ in fn_.values] == ["self.filter", "operator.ne"]
     ctx.check("DetectionMonitor.property_change:default-any-change", ok, where(m, f), "without a filter any change of value qualifies")
     da = prog.cls("service.detect", "DetectionAlgorithm")
     ex = da.methods.get("_execute")
@@ -396,6 +406,15 @@ def r5(ctx):
         for v in (True, False):
             if evd.may_hold(facts_at(s_), {"cov.confirmed": v}) and not evd.may_hold(facts_at(s_), {"cov.confirmed": not v}):
                 got[v] = norm(s_.value)
+    if not got:
+        # the class chosen first, the request built from it afterwards: request_class = X under the condition, request = request_class(..)
+        mk = [x for x in walk_shallow(rep) if isinstance(x, ast.Assign) and norm(x.targets[0]) == "request" and isinstance(x.value, ast.Call) and isinstance(x.value.func, ast.Name)]
+        if len(mk) == 1:
+            chooser = mk[0].value.func.id
+            for s_ in [x for x in walk_shallow(rep) if isinstance(x, ast.Assign) and norm(x.targets[0]) == chooser and isinstance(x.value, ast.Name)]:
+                for v in (True, False):
+                    if evd.may_hold(facts_at(s_), {"cov.confirmed": v}) and not evd.may_hold(facts_at(s_), {"cov.confirmed": not v}):
+                        got[v] = norm(s_.value) + "()"
     ctx.check("COVDetection.send_cov_notifications:confirmed-as-requested", got == {True: "ConfirmedCOVNotificationRequest()", False: "UnconfirmedCOVNotificationRequest()"}, where(mi, rep), "confirmed subscriptions get confirmed notifications, others unconfirmed (found %r)" % got)
     nl = [s_ for s_ in walk_shallow(rep) if isinstance(s_, ast.Assign) and norm(s_.targets[0]) == "notification_list"]
     vals = {}
@@ -408,6 +427,12 @@ def r5(ctx):
     ok = len(send) == 1 and enclosing_loops(send[0]) and norm(enclosing_loops(send[0])[0].iter) == "notification_list" and not facts_at(send[0], stop=enclosing_loops(send[0])[0])
     ctx.check("COVDetection.send_cov_notifications:one-per-subscription", ok, where(mi, rep), "exactly one notification is sent per subscription in the list")
     flds = {norm(t): norm(s_.value) for s_ in walk_shallow(rep) if isinstance(s_, ast.Assign) for t in s_.targets if norm(t).startswith("request.")}
+    # fields given to the constructor as keywords count like the stores they replace (`destination` is pduDestination)
+    for x in walk_shallow(rep):
+        if isinstance(x, ast.Assign) and norm(x.targets[0]) == "request" and isinstance(x.value, ast.Call):
+            for kw_ in x.value.keywords:
+                if kw_.arg:
+                    flds.setdefault("request.%s" % {"destination": "pduDestination", "source": "pduSource"}.get(kw_.arg, kw_.arg), norm(kw_.value))
     want = {"request.pduDestination": "cov.client_addr", "request.subscriberProcessIdentifier": "cov.proc_id", "request.monitoredObjectIdentifier": "cov.obj_id", "request.timeRemaining": "time_remaining", "request.listOfValues": "list_of_values"}
     ctx.check("COVDetection.send_cov_notifications:fields", all(flds.get(k) == v for k, v in want.items()), where(mi, rep), "notification fields must come from the subscription record and the current values")
     ex = d.methods.get("execute")
